@@ -84,6 +84,36 @@ def ubound(prog, body, t, facts=(), depth=0):
     if tag == "field":
         if _is_index_like(prog, body, t):
             return LEN_MAX
+    if tag == "phi" and iter_counter_base(prog, body, t) is not None:
+        return LEN_MAX      # counts completed iterations of a loop over a slice / str: <= its length
+    return None
+
+
+_COUNTER_MEMO = {}
+
+
+def iter_counter_base(prog, body, x):
+    """x is a position counter of an iterator-driven loop over a slice, Vec or str (a usize variable that is 0 on
+    entry and incremented by one on every path round the loop): the iterated collection, else None."""
+    if x[0] != "phi":
+        return None
+    key = (body.key, x)
+    if key in _COUNTER_MEMO:
+        return _COUNTER_MEMO[key]
+    _COUNTER_MEMO[key] = None
+    from ..engine import loop_models
+    from ..idioms import FirstIter
+    for lm in loop_models(prog, body):
+        if lm.kind != "iter" or lm.header != x[1]:
+            continue
+        fi = FirstIter(prog, body, lm)
+        if x not in fi.counters:
+            continue
+        chain, root, _ = iter_chain(fi.source) if fi.source else ([], None, [])
+        names = [n for n in chain if n not in ("IntoIterator::into_iter", "Iterator::by_ref")]
+        if names in (["[]::iter"], ["Vec::iter"], ["str::chars"], ["str::char_indices"], ["str::bytes"]):
+            _COUNTER_MEMO[key] = root
+            return root
     return None
 
 
@@ -454,7 +484,19 @@ def closure_return_term(prog, closure_term):
         return None, None
     s = sym_of(cb)
     r = cb.cfg.returns[0]
-    return cb, prog.simp(s.val((0, ()), r, "term"), cb)
+    ret = prog.simp(s.val((0, ()), r, "term"), cb)
+    if cb.kind != "closure":
+        # a plain fn used as a function value: its arguments start at 1, a closure's at 2
+        ret = _shift_params(ret)
+    return cb, ret
+
+
+def _shift_params(t):
+    if not isinstance(t, tuple) or not t:
+        return t
+    if t[0] == "param" and len(t) == 3 and isinstance(t[1], int):
+        return ("param", t[1] + 1, t[2])
+    return tuple(_shift_params(x) if isinstance(x, tuple) else x for x in t)
 
 
 def flatten_add(t):
@@ -653,7 +695,7 @@ def _acc_def_ok(prog, body, t, self_terms, F):
     return False
 
 
-def state_defs_ok(prog, body, t, pred):
+def state_defs_ok(prog, body, t, pred, stop=None):
     """t is a loop phi, an upvar (closure state) or a phi over those.  Collect all
     definitions (phi inputs; for upvars also every write to the capture in the
     closure and the initial value in the parent) and test each with pred(def, selfterms)."""
@@ -665,6 +707,9 @@ def state_defs_ok(prog, body, t, pred):
     while work:
         x = work.pop()
         if x in selfs:
+            continue
+        if x[0] == "phi" and stop is not None and x != t and stop(x):
+            defs.add(x)          # a merged value with a meaning of its own (e.g. a position counter): not expanded
             continue
         if x[0] == "phi":
             selfs.add(x)
@@ -887,6 +932,13 @@ def boundary_of(prog, body, x, base, facts, depth=0):
                 pat = ib0[2][2][1]
                 if pat[0] == "char" and _utf8_len(pat[1]) == x[1]:
                     return "the suffix starts with the matched U+%04X, whose UTF-8 length is %d" % (pat[1], x[1])
+    if x[0] == "call" and x[1] == "Option::unwrap_or" and len(x[2]) == 2:
+        # o.unwrap_or(d): the payload of o and the default are both boundaries
+        pay = boundary_of(prog, body, ("field", ("as", x[2][0], "Some"), "0"), base, facts, depth + 1)
+        dflt = boundary_of(prog, body, x[2][1], base, facts, depth + 1)
+        if pay and dflt:
+            return "%s, else %s" % (pay, dflt)
+        return None
     ib = index_iter_base(prog, body, x)
     if ib is not None:
         if ib[0] == base:
@@ -994,8 +1046,11 @@ def slice_bound_ok(prog, body, x, base, facts):
         names = [n for n in chain if n not in ("IntoIterator::into_iter", "Iterator::by_ref")]
         if names[:2] == ["Iterator::enumerate", "[]::iter"] and path == ["0", "0"] and root == base:
             return "enumerate index over the same slice (< len)"
+    if x[0] == "phi" and iter_counter_base(prog, body, x) == base:
+        return "position counter of the loop over the same slice (<= len)"
     if x[0] == "phi":
-        ok, why = state_defs_ok(prog, body, x, lambda d, selfs: d in selfs or slice_bound_ok(prog, body, d, base, facts))
+        ok, why = state_defs_ok(prog, body, x, lambda d, selfs: d in selfs or slice_bound_ok(prog, body, d, base, facts),
+                                stop=lambda y: iter_counter_base(prog, body, y) == base)
         if ok:
             return "state variable whose every definition is an in-range index"
     return None
@@ -1077,7 +1132,13 @@ def finite_source(prog, body, src, depth=0):
         if nm == "Range":
             return "Range<usize>"
         if src[1].startswith("line_ending::NonEmptyLines") or nm == "NonEmptyLines":
-            return "LEMMA:NonEmptyLines-finite"
+            # finite because every Some-returning call of NonEmptyLines::next removes at least the line feed
+            # from the remaining text or empties it: rule C15.R7, evaluated in the same run
+            from .. import lemmas as _lem
+            _lem.load_all()
+            if _lem.status(prog, "C15.R7") == "ok":
+                return "NonEmptyLines (each item shortens the remaining text: C15.R7)"
+            return None
     if src[0] in ("call", "callm"):
         name = src[1]
         if name in FINITE_ROOT_CALLS:
@@ -1106,8 +1167,11 @@ def finite_source(prog, body, src, depth=0):
     if src[0] in ("mut", "phi"):
         ty = None
         pk = src[3] if src[0] == "mut" else src[2]
+        owner = body
+        if src[0] == "mut" and isinstance(src[1], tuple) and prog.body(src[1][0]) is not None:
+            owner = prog.body(src[1][0])      # the place belongs to the body of the mutation site (e.g. the closure's parent)
         if pk[0] != "opaque":
-            ty = ty_head(body.local_ty(pk[0])) if not pk[1] else None
+            ty = ty_head(owner.local_ty(pk[0])) if not pk[1] else None
         if ty in ("Vec", "String"):
             return "Vec"
     return None
@@ -1138,8 +1202,9 @@ def schema_loop(prog, o):
 def finite_iter_type(prog, body, ty, lm):
     h = ty_head(ty)
     if h in ("Chars", "CharIndices", "Lines", "Split", "SplitTerminator", "MatchIndices", "Iter", "IntoIter",
-             "Enumerate", "Zip", "Range", "Bytes"):
-        inner_ok = True
+             "Range", "Bytes"):
+        return "std iterator type %s" % h
+    if h in ("Enumerate", "Zip") and finite_type(ty):
         # generic adapters are finite if their type arguments are finite std iterators
         return "std iterator type %s" % h
     return None
